@@ -310,8 +310,34 @@ fn cfg_replay(cfg: &[&Script], order: &[usize], placement: &str) -> serde_json::
     })
 }
 
+/// child-process entry "wrap": instance A decodes I, then another instance decodes `n` pictures,
+/// then A decodes a disposable picture and an all-skipped P picture. Single-threaded, deterministic.
+fn child_wrap(n: usize) -> i32 {
+    let i = encode_bytes(&Pic { hdr: shdr(16, 16, 0, 1, 5, 0), mbs: vec![Mb::intra_flat(50)] });
+    let d = encode_bytes(&Pic { hdr: shdr(16, 16, 2, 2, 5, 0), mbs: vec![Mb::intra_flat(200)] });
+    let p = encode_bytes(&Pic { hdr: shdr(16, 16, 1, 3, 5, 0), mbs: vec![Mb::NotCoded] });
+    let other = encode_bytes(&Pic { hdr: shdr(16, 16, 0, 9, 5, 0), mbs: vec![Mb::intra_flat(90)] });
+    let mut a = H263State::new(options_from_bits(1));
+    let mut b = H263State::new(options_from_bits(1));
+    let mut obs: Vec<Obs> = vec![];
+    let o = decode_bytes(&mut a, &i);
+    obs.push(observe(&a, &o));
+    for _ in 0..n {
+        let _ = decode_bytes(&mut b, &other);
+    }
+    let o = decode_bytes(&mut a, &d);
+    obs.push(observe(&a, &o));
+    let o = decode_bytes(&mut a, &p);
+    obs.push(observe(&a, &o));
+    println!("{}", serde_json::to_string(&obs).unwrap());
+    0
+}
+
 /// child-process entry: run one interleaving in a fresh process, print observations
 pub fn child(args: &[String]) -> i32 {
+    if args.first().map(|s| s == "wrap").unwrap_or(false) {
+        return child_wrap(args.get(1).and_then(|s| s.parse().ok()).unwrap_or(0));
+    }
     let seed: u64 = args[0].parse().unwrap_or(0);
     let ids: Vec<usize> = args[1].split(',').map(|x| x.parse().unwrap()).collect();
     let order: Vec<usize> = args[2].split(',').map(|x| x.parse().unwrap()).collect();
@@ -497,6 +523,29 @@ pub fn run(tier: Tier) -> Report {
                         }
                     }
                 }
+            }
+        }
+    }
+    // a long-lived instance next to a busy one: counters or keys shared between instances wrap
+    // after 2^8 / 2^16 pictures decoded elsewhere in the process (fresh single-threaded processes)
+    {
+        let counts: Vec<usize> = if tier.thorough() { vec![0, 1, 254, 255, 256, 257, 65534, 65535, 65536, 65537, 131071, 131072] } else { vec![0, 255, 256, 65535, 65536] };
+        let mut results: Vec<(usize, Option<Vec<Obs>>)> = vec![];
+        for &n in &counts {
+            let out = std::process::Command::new(&exe).arg("det-child").arg("wrap").arg(n.to_string()).output();
+            let parsed: Option<Vec<Obs>> = out.ok().and_then(|o| serde_json::from_slice(&o.stdout).ok());
+            rep.add_transitions(n as u64 + 3);
+            n_child += 1;
+            results.push((n, parsed));
+        }
+        let base0 = results[0].1.clone();
+        for (n, r) in &results {
+            if r.is_none() || *r != base0 {
+                rep.violation(
+                    "C17/result-depends-on-pictures-decoded-by-another-instance",
+                    format!("instance A (I, disposable, all-skipped P) gives {:?} when another instance decodes {n} pictures in between, {:?} when it decodes none", r, base0),
+                    json!({"kind": "det-child-wrap", "pictures_decoded_by_the_other_instance": n, "rerun": format!("vcheck det-child wrap {n}")}),
+                );
             }
         }
     }
